@@ -8,6 +8,10 @@ import (
 	"encoding/json"
 	"fmt"
 	"math"
+	"runtime"
+	"sync"
+	"sync/atomic"
+	"time"
 
 	tally "github.com/uber-go/tally/v4"
 )
@@ -189,6 +193,21 @@ func init() {
 			}
 		}
 		if ctx.Replay != nil {
+			var sp struct {
+				Stress bool `json:"stress"`
+				Cached bool `json:"cached"`
+				Wait   bool `json:"updater_waits_for_delivery"`
+			}
+			if json.Unmarshal(ctx.Replay, &sp) == nil && sp.Stress {
+				ctx.Case(sp, "", "uncontrolled-concurrent-passes", "")
+				for k := 0; k < 200; k++ {
+					if f := c02Stress(sp.Cached, sp.Wait); f != "" {
+						ctx.Fail("delivered_values_are_updates_and_fresh", f, sp, nil)
+						return
+					}
+				}
+				return
+			}
 			var c c02Case
 			if err := json.Unmarshal(ctx.Replay, &c); err != nil {
 				fatal(err)
@@ -249,5 +268,139 @@ func init() {
 			one(&c)
 		}
 		ctx.Res.Schedules = nsched
+		// uncontrolled: the updater against three goroutines running report passes at once (the ticker,
+		// Close and a re-request of a closed scope can run passes at the same time; the atomic
+		// operations of Update / report have no yield point inside). Direct predicates only.
+		rounds := ctx.N(30, 1000)
+		bad := 0
+		for k := 0; k < rounds; k++ {
+			cached, wait := k%2 == 1, k%4 < 2
+			f := c02Stress(cached, wait)
+			cs := map[string]interface{}{"stress": true, "cached": cached, "updater_waits_for_delivery": wait}
+			ctx.Case(cs, "", "uncontrolled-concurrent-passes", "")
+			if f != "" {
+				bad++
+				if bad == 1 {
+					ctx.Fail("delivered_values_are_updates_and_fresh", f, cs, nil)
+				}
+			}
+		}
+		ctx.Res.Extra["stress_rounds_failed"] = bad
 	}
+}
+
+// c02Sink counts gauge deliveries (plain and cached interface).
+type c02Sink struct {
+	n    int64  // deliveries
+	last uint64 // bits of the most recent delivery
+	cnt  []int32 // deliveries per value
+	bad  uint64 // bits of a delivered value outside 1..max (0 = none)
+	max  float64
+}
+
+func (s *c02Sink) Capabilities() tally.Capabilities { return caps{true, true} }
+func (s *c02Sink) Flush()                           {}
+func (s *c02Sink) got(v float64) {
+	atomic.StoreUint64(&s.last, math.Float64bits(v))
+	if !(v >= 1 && v <= s.max && v == math.Trunc(v)) {
+		atomic.StoreUint64(&s.bad, math.Float64bits(v)|1<<63)
+	}
+	if v >= 1 && v <= s.max && v == math.Trunc(v) {
+		atomic.AddInt32(&s.cnt[int(v)], 1)
+	}
+	atomic.AddInt64(&s.n, 1)
+}
+func (s *c02Sink) ReportCounter(string, map[string]string, int64)       {}
+func (s *c02Sink) ReportGauge(_ string, _ map[string]string, v float64) { s.got(v) }
+func (s *c02Sink) ReportTimer(string, map[string]string, time.Duration) {}
+func (s *c02Sink) ReportHistogramValueSamples(string, map[string]string, tally.Buckets, float64, float64, int64) {
+}
+func (s *c02Sink) ReportHistogramDurationSamples(string, map[string]string, tally.Buckets, time.Duration, time.Duration, int64) {
+}
+
+type c02SinkC struct{ *c02Sink }
+type c02Gauge struct{ s *c02Sink }
+
+func (g c02Gauge) ReportGauge(v float64) { g.s.got(v) }
+func (c c02SinkC) AllocateCounter(string, map[string]string) tally.CachedCount { return nil }
+func (c c02SinkC) AllocateGauge(string, map[string]string) tally.CachedGauge   { return c02Gauge{c.c02Sink} }
+func (c c02SinkC) AllocateTimer(string, map[string]string) tally.CachedTimer   { return nil }
+func (c c02SinkC) AllocateHistogram(string, map[string]string, tally.Buckets) tally.CachedHistogram {
+	return nil
+}
+
+// c02Stress: one goroutine updates a gauge with 1, 2, .., n while three goroutines run report passes.
+// wait = the updater waits (bounded) until its value has been delivered before the next Update, so that
+// every update is delivered and a second delivery of any of them makes deliveries exceed updates;
+// otherwise the updates come in pairs at once (the second while the first may still be undelivered),
+// followed by a pause in which every reporting goroutine completes two more passes - updates have
+// stopped and passes have started afterwards, so the pair's last value must have been delivered.
+func c02Stress(cached, wait bool) string {
+	const n = 400
+	sink := &c02Sink{max: n, cnt: make([]int32, n+1)}
+	opts := tally.ScopeOptions{OmitCardinalityMetrics: true}
+	if cached {
+		opts.CachedReporter = c02SinkC{sink}
+	} else {
+		opts.Reporter = sink
+	}
+	scope, closer := tally.VerifNewRootScope(opts, 0, 2)
+	g := scope.Tagged(map[string]string{"a": "b"}).Gauge("g")
+	stop := make(chan struct{})
+	var rg sync.WaitGroup
+	var done [3]int64
+	for p := 0; p < 3; p++ {
+		p := p
+		rg.Add(1)
+		go func() {
+			defer rg.Done()
+			for {
+				select {
+				case <-stop:
+					return
+				default:
+				}
+				tally.VerifReportOnce(scope)
+				atomic.AddInt64(&done[p], 1)
+			}
+		}()
+	}
+	fail := ""
+	for i := 1; i <= n && fail == ""; i++ {
+		g.Update(float64(i))
+		if wait {
+			for spin := 0; spin < 200000 && atomic.LoadInt32(&sink.cnt[i]) == 0; spin++ {
+				runtime.Gosched()
+			}
+		} else if i%2 == 0 {
+			var base [3]int64
+			for p := range base {
+				base[p] = atomic.LoadInt64(&done[p])
+			}
+			for p := range base {
+				for atomic.LoadInt64(&done[p]) < base[p]+2 {
+					runtime.Gosched()
+				}
+			}
+			if atomic.LoadInt32(&sink.cnt[i]) == 0 {
+				fail = fmt.Sprintf("concurrent report passes: Update(%d) right after Update(%d), then no further update; every reporting goroutine has since completed two more passes, but %d was never delivered (most recent delivered value: %v)",
+					i, i-1, i, math.Float64frombits(atomic.LoadUint64(&sink.last)))
+			}
+		}
+	}
+	close(stop)
+	rg.Wait()
+	tally.VerifReportOnce(scope)
+	deliveries := atomic.LoadInt64(&sink.n)
+	closer.Close()
+	if b := atomic.LoadUint64(&sink.bad); b != 0 {
+		return fmt.Sprintf("concurrent report passes: a value was delivered (bits %#x) that was never passed to Update (updates were 1..%d)", b&^(1<<63), n)
+	}
+	if fail != "" {
+		return fail
+	}
+	if deliveries > n {
+		return fmt.Sprintf("concurrent report passes: %d updates were made, %d deliveries arrived (deliveries exceed updates: some update was delivered again)", n, deliveries)
+	}
+	return ""
 }
